@@ -13,7 +13,7 @@ from vlib import core
 from vlib.core import SplitMix
 
 # which parts of proposed_fix.diff are applied to /repo (the model must follow the code): flip when the fix: commit lands
-FIXED = {"sub": False, "dims": False}
+FIXED = {"sub": True, "dims": True}
 KEYS = {"cart-sub-built-from-parent-rank", "dims-create-given-product-not-dividing"}
 
 
